@@ -67,6 +67,21 @@ CHECKS = {
                      'get_leaf_for_position (both include_prefixes values; ValueError outside the file) are compared by TLC with '
                      'the definitions derived from child lists and leaf order.',
                 note='TLC; recorder; positions sampled above 160 (quick) / 400 (thorough) per text.', ref='2.4, 3 C11'),
+    'C13': dict(level=MC, tech='TLA+ A-spec Issues (kind errors) evaluated by TLC on recorded iter_errors() results paired with the serialised tree',
+                text='For every text (standard set + ParserB sentences-with-errors and arbitrary token streams) iter_errors is called '
+                     'twice on the real tree; TLC checks: no exception, tree dump unchanged, both lists equal, codes 901/903 with '
+                     'matching message prefix, ranges inside the file, one issue per line, every error leaf line and every '
+                     'outermost error node next-token line carries an issue, non-empty when strict parsing fails.',
+                note='TLC; recorder. One systematic exception is a known finding (f-string error nodes, versions >= 3.9).',
+                ref='2.5, 3 C13'),
+    'C20': dict(level=MC, tech='TLA+ A-spec Issues (kind pep8) evaluated by TLC on recorded _get_normalizer_issues() results, four configurations, three provenances',
+                text='PEP 8 issue lists of real trees (standard set + ParserB behaviours) under four configurations, called '
+                     'twice, and for the same text parsed fresh / re-parsed incrementally / unpickled; TLC checks: no exception, '
+                     'tree unchanged, deterministic, numeric code + message, range inside the file with non-negative columns, no '
+                     'duplicate (code, start), identical across provenances, W292 exactly when an error-free text lacks a final '
+                     'line break.',
+                note='TLC; recorder. Crashes of the (unfinished) indentation-stack logic are listed as known findings by crash site.',
+                ref='2.5, 3 C20'),
 }
 
 NOT_YET = {}
